@@ -16,14 +16,22 @@ def unassigned(logic):
 
 def read_model(name, model) -> R.Model:
     "Raw data of a finished library model -> reference model (no library evaluation involved)."
-    worlds = sorted(model.frames)
     rel = set()
     for w1, seen in model.R.items():
         for w2 in seen:
             rel.add((w1, w2))
+    frame_worlds = sorted(model.frames)
+    # a serial completion may add a world that has no frame of its own
+    worlds = sorted(set(frame_worlds) | set(model.R) | {w for p in rel for w in p})
     consts = sorted(A.from_lib(c) for c in model.constants)
+    empty = not consts
+    if empty:
+        # domains are non-empty: a model that names no constant is read as having one anonymous
+        # element about which nothing is asserted (everything takes the unassigned value)
+        consts = [A.const(0)]
     m = R.Model(name, worlds, rel, consts, default=unassigned(name))
-    for w in worlds:
+    m.empty_domain = empty
+    for w in frame_worlds:
         fr = model.frames[w]
         m.atoms[w] = {A.from_lib(s): str(v) for s, v in fr.atomics.items()}
         m.opaque[w] = {A.from_lib(s): str(v) for s, v in fr.opaques.items()}
